@@ -9,7 +9,7 @@ use tamon::props;
 static GLOBAL: tamon::alloc::Counting = tamon::alloc::Counting;
 
 fn usage() -> ! {
-    eprintln!("usage: mon run <C01..C19> [--tier quick|thorough] [--seed N] [--threads N] [--repo DIR] [--only a,b] --out FILE\n       mon replay <file>");
+    eprintln!("usage: mon run <C01..C19> [--tier quick|thorough] [--seed N] [--threads N] [--repo DIR] [--only a,b] [--skip a,b] --out FILE\n       mon replay <file>");
     std::process::exit(2);
 }
 
@@ -28,6 +28,7 @@ fn main() {
             let mut repo = "/repo".to_string();
             let mut out = None;
             let mut only = None;
+            let mut skip = None;
             let mut traces_out: Option<String> = None;
             let mut i = 3;
             while i < args.len() {
@@ -40,12 +41,13 @@ fn main() {
                     "--repo" => repo = v.unwrap_or(repo),
                     "--out" => out = v,
                     "--only" => only = v,
+                    "--skip" => skip = v,
                     "--traces" => traces_out = v,
                     _ => usage(),
                 }
                 i += 2;
             }
-            let ctx = Ctx { tier, seed, threads, repo, only };
+            let ctx = Ctx { tier, seed, threads, repo, only, skip };
             let start = Instant::now();
             let (rep, rule, explanation, exhaustive) = match props::run(&prop, &ctx) {
                 Some(x) => x,
